@@ -1,0 +1,16 @@
+//go:build verif
+
+package file
+
+// Verification hooks for the JWT description (see /verif, property C18).
+// Not compiled without the "verif" build tag.
+
+// VerifJWTParams returns the registered-name table in the order jwtAttributes walks it:
+// key, attribute label, name of the converter function.
+func VerifJWTParams() [][3]string {
+	var rows [][3]string
+	for _, p := range jwtParams {
+		rows = append(rows, [3]string{p.name, p.description, verifFuncName(p.convert)})
+	}
+	return rows
+}
